@@ -1,8 +1,54 @@
-import SieveModel.Model.Client
-/-! # C09 — theorems follow (status decoding) -/
+import SieveModel.Lemmas.ReplyDecode
+/-!
+# C09 — Operation results mirror the server's status reply
+
+`parseError` is the model of `Client.__parse_error`, which fills `errcode` / `errmsg` from the part
+of a `NO` line that follows the status atom.  Proved for every response-code atom, every text
+(any bytes: quotes, backslashes, non-ASCII …) and every reader state: each reply shape of
+RFC 5804 is decoded to exactly the code and the human-readable text the reply carries — no
+shape raises, none keeps protocol bytes (quotes, escapes, CRLF) in the text.
+-/
 namespace C09
-open Reader
-/-- a bare `NO` (no code, no text) is decoded to empty code and text instead of raising -/
-theorem bare_no_is_decoded (st : RState) :
-    parseError none st = .ok { st with errcode := [], errmsg := [] } := rfl
+open Reader Client ReplyDecode
+
+/-- `NO` alone -/
+theorem bare_no (st : RState) : parseError none st = .ok { st with errcode := [], errmsg := [] } := rfl
+
+/-- `NO "text"` -/
+theorem no_with_quoted_text (text : Bytes) (st : RState) :
+    parseError (some (34 :: (escapeQ text ++ [34]))) st = .ok { st with errcode := [], errmsg := text } :=
+  parseError_quoted_text_only text st
+
+/-- `NO (CODE)` — also hierarchical codes such as `QUOTA/MAXSIZE` -/
+theorem no_with_code_only (code : Bytes) (st : RState) (hne : code ≠ [])
+    (hc : ∀ c ∈ code, isAtomByte c = true) :
+    parseError (some (40 :: (code ++ [41]))) st = .ok { st with errcode := code, errmsg := [] } :=
+  parseError_code_only code st hne hc
+
+/-- `NO (CODE) "text"` -/
+theorem no_with_code_and_quoted_text (code text : Bytes) (st : RState) (hne : code ≠ [])
+    (hc : ∀ c ∈ code, isAtomByte c = true) :
+    parseError (some (40 :: (code ++ 41 :: 32 :: (34 :: (escapeQ text ++ [34]))))) st
+      = .ok { st with errcode := code, errmsg := text } :=
+  parseError_code_and_quoted_text code text st hne hc
+
+/-- `NO (CODE) {n}` CRLF text CRLF — the literal is taken by count, whatever it contains -/
+theorem no_with_code_and_literal_text (code text more ds : Bytes) (st : RState) (hne : code ≠ [])
+    (hc : ∀ c ∈ code, isAtomByte c = true) (hds : ds ≠ []) (hall : ∀ d ∈ ds, B.isDigit d = true)
+    (hval : B.decToNat ds = text.length) (hp : pending st = text ++ 13 :: 10 :: more) :
+    ∃ st', parseError (some (40 :: (code ++ 41 :: 32 :: (123 :: (ds ++ [125]))))) st = .ok st' ∧
+      st'.errcode = code ∧ st'.errmsg = text ∧ pending st' = more :=
+  parseError_code_and_literal_text code text more ds st hne hc hds hall hval hp
+
+/-- quoting and un-quoting of reply texts are inverse for every byte string -/
+theorem unescape_escape (v : Bytes) : unescape (escapeQ v) = v := unescape_escapeQ v
+
+/-- the boolean every operation returns is "the final status is OK" -/
+theorem operation_result_is_status_ok (x : Res Reply) (rep : Reply) (c : Client) (h : x = (.ok rep, c)) :
+    okOf x = (.ok (rep.code == some .OK), c) := by subst h; rfl
+
+/-- non-vacuity -/
+example : (parseError (some (sb "(QUOTA/MAXSIZE) \"Quota \\\"x\\\" exceeded\"")) default).toOption.map
+    (fun s => (s.errcode, s.errmsg)) = some (sb "QUOTA/MAXSIZE", sb "Quota \"x\" exceeded") := by decide
+
 end C09
